@@ -370,7 +370,7 @@ def env_frame():
             writes = [ast.unparse(t) for s in ast.walk(init_) if isinstance(s, (ast.Assign, ast.AugAssign, ast.AnnAssign)) for t in (s.targets if isinstance(s, ast.Assign) else [s.target])
                       if not (isinstance(t, ast.Name) or (isinstance(t, ast.Attribute) and flow.dotted(t.value) == "self"))]
             obs.append(flow.ob(f"{cname}.__init__:writes-only-its-own-instance", not writes, str(writes)))
-    obs.append(flow.ob("tag-classes-found", n >= 25, f"{n} tag classes"))
+    obs.append(flow.ob("tag-classes-found", n >= 10, f"{n} tag classes"))
     tag_init = load.find_method("liquid.tag", "Tag", "__init__")[2]
     obs.append(flow.ob("Tag.__init__:binds-the-creating-environment", [ast.unparse(s) for s in tag_init.body if not (isinstance(s, ast.Expr) and isinstance(s.value, ast.Constant))] == ["self.env = env"], ""))
     # the tokenizer and the liquid-tag tokenizer decide nothing on a literal default delimiter
